@@ -1,34 +1,43 @@
 """C19: regenerate the control skeleton of the benchmark orchestration as Gallina (C19/Gen.v).
 
-A fail-closed `ast` FACT EXTRACTOR over
+A fail-closed FACT EXTRACTOR BY SYMBOLIC EXECUTION over
     sktime/benchmarking/orchestration.py   Orchestrator.fit_predict, Orchestrator._iter
     sktime/benchmarking/results.py         HDDResults, RAMResults (every method the run uses)
     sktime/benchmarking/base.py            BaseResults._append_key, BaseResults._iter,
                                            HDDBaseResults.save, _PredictionsWrapper.__init__
-Every statement of these functions must have one of the shapes understood below; anything else
-raises Unsupported (a broken tie).  What is carried into Gallina BY BINDING, so that an edit makes a
-lemma of coq/C19/Bridge.v fail:
-  * the flag-validation condition of fit_predict                              -> gen_rejects
-  * which existence check feeds which variable, the ORDER of the three checks before anything
-    else, the skip condition, what the skip branch does, the order fit -> save fitted strategy ->
-    predict train -> predict test and the guard of each                       -> gen_plan_task
-  * (results.save() must be the one statement after the loop: checked here)
-  * the loop nest of _iter (datasets, strategies, folds), the first fold number, the clone per
-    fold                                                           -> gen_tasks_of, gen_clone_per_fold
-  * the existence checks of both result stores                                -> gen_has_pred / _fit
-  * _append_key                                                               -> gen_append_key
-  * save() of both stores (first master file / merge with an existing one)    -> gen_save
-  * save_predictions / save_fitted_strategy of both stores: write, then register
-                                                      -> gen_save_predictions, gen_save_fitted
-  * which DataFrame column receives which argument, which column is read back into which field of
-    the returned record, the order of the registry iteration of load_predictions
-                                                      -> gen_stored, gen_loaded, gen_load
-  * the float parser of load_predictions                                -> gen_float_round_trip
-Checked here (raise on mismatch, nothing to prove): every call passes strategy name, dataset
-name, fold and part consistently (a record stored under the "train" key is the prediction on the
-training instances with the training index and the training targets, ...); check / save / load
-build the file name with the same function, the same four fields and the same suffix; the key
-functions use all four fields.
+
+The functions are not matched statement by statement against expected texts.  They are EXECUTED
+on symbolic values (class `Exec`): expressions evaluate to terms, every call the executor does not
+inline is appended to a trace in evaluation order, `if` statements fork the execution (the
+statements after the `if` are run in both branches, so guard clauses, early `continue` / `return`,
+if/else nesting and merged conditions all yield the same tree), local names are just an
+environment (renaming, introducing or inlining temporaries changes nothing), private helpers -
+`self._helper(...)` methods of the same class and module-level functions of the same file that are
+not part of the modelled API - are inlined with argument binding (positional, keyword, defaults),
+comprehensions over literal tuples (also module constants) are expanded, `*list` arguments are
+spread.  The facts are then read off the resulting execution tree:
+
+  * fit_predict: the flag-validation condition                                  -> gen_rejects
+    the loop body as a decision tree over the flags and the three existence checks whose leaves
+    are sequences of the modelled operations (register / fit / save fitted strategy / predict+store
+    train / predict+store test)                                                 -> gen_plan_task
+    (the Bridge proves it equal to the model's plan_task by exhausting the booleans - any
+    equivalent control structure proves), results.save() exactly once, after the loop
+  * _iter: the loop nest, the first fold number, where the strategy is cloned
+                                                         -> gen_tasks_of, gen_clone_per_fold
+  * both stores' existence checks                        -> gen_has_pred, gen_has_fit
+  * _append_key                                          -> gen_append_key
+  * save() of both stores                                -> gen_save
+  * save_predictions / load_predictions: column <-> argument <-> field    -> gen_stored, gen_loaded
+    the registry iteration                               -> gen_load
+    the float parser                                     -> gen_float_round_trip
+  * save_predictions / save_fitted_strategy: write, then register
+                                                         -> gen_save_predictions, gen_save_fitted
+Fail closed: a call that is neither inlined nor known (NEUTRAL below: logging, timestamps, path
+arithmetic, array conversion) nor one of the operations a fact expects makes the extractor raise;
+so does a value that reaches a modelled operation but is not what the model says (a record stored
+under the "train" key must carry the training positions, the training targets and the prediction
+on the training instances; check / save / load must address the same file ...).
 """
 import ast
 import os
@@ -50,674 +59,1166 @@ def _u(n):
 
 
 def _fail(msg, node=None):
-    raise Unsupported("orch_c19: %s%s" % (msg, "" if node is None else " [line %s: %s]" % (
-        getattr(node, "lineno", "?"), _u(node)[:120])))
+    where = ""
+    if isinstance(node, ast.AST):
+        where = " [line %s: %s]" % (getattr(node, "lineno", "?"), _u(node)[:120])
+    elif node is not None:
+        where = " [%s]" % show(node)[:200]
+    raise Unsupported("orch_c19: %s%s" % (msg, where))
 
 
-def _find(mod, path):
-    node = mod
-    for p in path.split("."):
-        hits = [n for n in node.body if isinstance(n, (ast.FunctionDef, ast.ClassDef)) and n.name == p]
-        if len(hits) != 1:
-            _fail("expected exactly one definition of %s, found %d" % (path, len(hits)))
-        node = hits[0]
+# ------------------------------------------------------------------------------------------------
+# terms
+
+def C(v):
+    return ("const", v)
+
+
+SLICE_ALL = ("slice", C(None), C(None), C(None))
+TRUE, FALSE, NONE = C(True), C(False), C(None)
+
+
+def show(t):
+    if not isinstance(t, tuple) or not t:
+        return repr(t)
+    k = t[0]
+    if k == "const":
+        return repr(t[1])
+    if k in ("param", "global", "loopvar", "role", "flag"):
+        return t[1]
+    if k == "self":
+        return "self"
+    if k == "proj":
+        return "%s#%d" % (show(t[1]), t[2])
+    if k == "attr":
+        return "%s.%s" % (show(t[1]), t[2])
+    if k == "call":
+        return "%s(%s)" % (show(t[1]), ", ".join([show(a) for a in t[2]] + ["%s=%s" % (n, show(v)) for n, v in t[3]]))
+    if k == "sub":
+        return "%s[%s]" % (show(t[1]), show(t[2]))
+    if k in ("tuple", "list", "genkey"):
+        return "%s(%s)" % ("" if k != "genkey" else "key", ", ".join(show(x) for x in t[1]))
+    return "%s(%s)" % (k, ", ".join(show(x) if isinstance(x, tuple) else repr(x) for x in t[1:]))
+
+
+def mk_not(x):
+    if x[0] == "not":
+        return x[1]
+    if x[0] == "const" and isinstance(x[1], bool):
+        return C(not x[1])
+    if x[0] == "cmp" and x[1] in ("in", "notin"):
+        return ("cmp", "notin" if x[1] == "in" else "in", x[2], x[3])
+    return ("not", x)
+
+
+# ------------------------------------------------------------------------------------------------
+# execution trees:  ("eff", effect, next) | ("if", cond, then, else) | ("ret", value)
+#                   | ("cont",) | ("raise", value) | ("end",)
+
+
+class Ctx:
+    """one module + one class: where helpers are looked up"""
+
+    def __init__(self, mod, clsname=None, primitives=(), hook=None):
+        self.mod = mod
+        self.functions = {n.name: n for n in mod.body if isinstance(n, ast.FunctionDef)}
+        self.methods = {}
+        self.static = set()
+        if clsname:
+            cls = [n for n in mod.body if isinstance(n, ast.ClassDef) and n.name == clsname]
+            if len(cls) != 1:
+                _fail("expected exactly one class %s" % clsname)
+            for n in cls[0].body:
+                if isinstance(n, ast.FunctionDef):
+                    if n.name in self.methods:
+                        _fail("method %s.%s defined twice" % (clsname, n.name))
+                    self.methods[n.name] = n
+                    if any(_u(d) == "staticmethod" for d in n.decorator_list):
+                        self.static.add(n.name)
+        self.consts = {}
+        for n in mod.body:
+            if isinstance(n, ast.Assign) and len(n.targets) == 1 and isinstance(n.targets[0], ast.Name):
+                try:
+                    v = ast.literal_eval(n.value)
+                except Exception:
+                    continue
+                self.consts[n.targets[0].id] = _lit(v)
+        self.primitives = set(primitives)
+        self.hook = hook or (lambda t: t)
+        self.depth = 0
+
+    def method(self, name):
+        if name not in self.methods:
+            _fail("missing method %s" % name)
+        return self.methods[name]
+
+
+def _lit(v):
+    if isinstance(v, (tuple, list)):
+        return ("tuple" if isinstance(v, tuple) else "list", tuple(_lit(x) for x in v))
+    return C(v)
+
+
+def _params(fn, drop_self):
+    a = fn.args
+    if a.vararg or a.kwarg or a.kwonlyargs or a.posonlyargs:
+        _fail("unsupported parameter list of %s" % fn.name, fn)
+    names = [x.arg for x in a.args]
+    defaults = dict(zip(names[len(names) - len(a.defaults):], a.defaults))
+    if drop_self:
+        names = names[1:]
+    return names, defaults
+
+
+class Exec:
+    def __init__(self, ctx, loop_binder=None):
+        self.ctx = ctx
+        self.loop_binder = loop_binder       # (for statement, iterable term) -> {name: term} or None
+
+    # ---------------------------------------------------------------- expressions
+    def ev(self, e, env, eff):
+        """-> term; calls that are not inlined are appended to `eff` in evaluation order"""
+        h = self.ctx.hook
+        if isinstance(e, ast.Constant):
+            return C(e.value)
+        if isinstance(e, ast.Name):
+            if e.id in env:
+                return env[e.id]
+            if e.id in self.ctx.consts:
+                return self.ctx.consts[e.id]
+            return ("global", e.id)
+        if isinstance(e, ast.Attribute):
+            return h(("attr", self.ev(e.value, env, eff), e.attr))
+        if isinstance(e, (ast.Tuple, ast.List)):
+            items = []
+            for x in e.elts:
+                if isinstance(x, ast.Starred):
+                    v = self.ev(x.value, env, eff)
+                    if v[0] not in ("tuple", "list"):
+                        _fail("cannot spread a value of unknown length", x)
+                    items.extend(v[1])
+                else:
+                    items.append(self.ev(x, env, eff))
+            return ("tuple" if isinstance(e, ast.Tuple) else "list", tuple(items))
+        if isinstance(e, ast.Dict):
+            if any(k is None for k in e.keys):
+                _fail("dict unpacking", e)
+            return ("dict", tuple((self.ev(k, env, eff), self.ev(v, env, eff)) for k, v in zip(e.keys, e.values)))
+        if isinstance(e, ast.JoinedStr):
+            parts = []
+            for p in e.values:
+                if isinstance(p, ast.FormattedValue):
+                    v = self.ev(p.value, env, eff)
+                    if v[0] == "call" and v[1] == ("global", "str") and len(v[2]) == 1 and not v[3]:
+                        v = v[2][0]                      # f"{str(x)}" == f"{x}"
+                    parts.append(("fmt", v))
+                else:
+                    parts.append(self.ev(p, env, eff))
+            return ("fstr", tuple(parts))
+        if isinstance(e, ast.BinOp):
+            a, b = self.ev(e.left, env, eff), self.ev(e.right, env, eff)
+            return h(("add", a, b) if isinstance(e.op, ast.Add) else ("binop", type(e.op).__name__, a, b))
+        if isinstance(e, ast.UnaryOp) and isinstance(e.op, ast.Not):
+            return mk_not(self.ev(e.operand, env, eff))
+        if isinstance(e, ast.BoolOp):
+            # (short circuit: operands of the modelled conditions are pure reads)
+            k = "and" if isinstance(e.op, ast.And) else "or"
+            vals = []
+            for x in e.values:
+                v = self.ev(x, env, eff)
+                vals.extend(v[1] if v[0] == k else [v])
+            return (k, tuple(vals))
+        if isinstance(e, ast.Compare) and len(e.ops) == 1:
+            op = {ast.In: "in", ast.NotIn: "notin", ast.Eq: "eq", ast.NotEq: "ne", ast.Is: "is",
+                  ast.IsNot: "isnot", ast.Lt: "lt", ast.LtE: "le", ast.Gt: "gt", ast.GtE: "ge"}.get(type(e.ops[0]))
+            if op is None:
+                _fail("comparison", e)
+            return ("cmp", op, self.ev(e.left, env, eff), self.ev(e.comparators[0], env, eff))
+        if isinstance(e, ast.IfExp):
+            return ("ite", self.ev(e.test, env, eff), self.ev(e.body, env, eff), self.ev(e.orelse, env, eff))
+        if isinstance(e, ast.Slice):
+            f = lambda x: NONE if x is None else self.ev(x, env, eff)
+            return ("slice", f(e.lower), f(e.upper), f(e.step))
+        if isinstance(e, ast.Subscript):
+            return h(("sub", self.ev(e.value, env, eff), self.ev(e.slice, env, eff)))
+        if isinstance(e, (ast.ListComp, ast.GeneratorExp)):
+            return self._comp(e, env, eff)
+        if isinstance(e, ast.Call):
+            return self._call(e, env, eff)
+        if isinstance(e, ast.Starred):
+            _fail("starred expression", e)
+        _fail("unsupported expression", e)
+
+    def _comp(self, e, env, eff):
+        if len(e.generators) != 1 or e.generators[0].ifs or e.generators[0].is_async:
+            return ("opaque", ast.dump(e))
+        g = e.generators[0]
+        it = self.ev(g.iter, env, eff)
+        if it[0] not in ("tuple", "list"):
+            return ("comp", ast.dump(e.elt), ast.dump(g.target), it)
+        out = []
+        for item in it[1]:
+            e2 = dict(env)
+            self._bind_target(g.target, item, e2)
+            out.append(self.ev(e.elt, e2, eff))
+        return ("list", tuple(out))
+
+    def _bind_target(self, tgt, val, env):
+        if isinstance(tgt, ast.Name):
+            env[tgt.id] = val
+        elif isinstance(tgt, (ast.Tuple, ast.List)):
+            if val[0] in ("tuple", "list") and len(val[1]) == len(tgt.elts):
+                for t, v in zip(tgt.elts, val[1]):
+                    self._bind_target(t, v, env)
+            else:
+                for i, t in enumerate(tgt.elts):
+                    self._bind_target(t, ("proj", val, i, len(tgt.elts)), env)
+        else:
+            _fail("assignment target", tgt)
+
+    def _args(self, e, env, eff):
+        args = []
+        for a in e.args:
+            if isinstance(a, ast.Starred):
+                v = self.ev(a.value, env, eff)
+                if v[0] not in ("tuple", "list"):
+                    _fail("cannot spread an argument list of unknown length", e)
+                args.extend(v[1])
+            else:
+                args.append(self.ev(a, env, eff))
+        kws = []
+        for kw in e.keywords:
+            if kw.arg is None:
+                _fail("**kwargs in a call", e)
+            kws.append((kw.arg, self.ev(kw.value, env, eff)))
+        return args, kws
+
+    def _helper_of(self, e):
+        """the FunctionDef to inline for this call, or None"""
+        f = e.func
+        c = self.ctx
+        if isinstance(f, ast.Attribute) and isinstance(f.value, ast.Name) and f.value.id == "self" \
+                and f.attr in c.methods and f.attr not in c.primitives:
+            return c.methods[f.attr], f.attr not in c.static
+        if isinstance(f, ast.Name) and f.id in c.functions and f.id not in c.primitives:
+            return c.functions[f.id], False
+        return None
+
+    def bind_call(self, fn, drop_self, args, kws, env, eff, what):
+        names, defaults = _params(fn, drop_self)
+        out = {}
+        if len(args) > len(names):
+            _fail("%s: too many positional arguments" % what, fn)
+        for n, a in zip(names, args):
+            out[n] = a
+        for n, v in kws:
+            if n not in names or n in out:
+                _fail("%s: keyword %s" % (what, n), fn)
+            out[n] = v
+        for n in names:
+            if n not in out:
+                if n not in defaults:
+                    _fail("%s: missing argument %s" % (what, n), fn)
+                out[n] = self.ev(defaults[n], {}, eff)
+        return out
+
+    def _call(self, e, env, eff):
+        hp = self._helper_of(e)
+        if hp is not None:
+            node = self.call_helper(hp, e, env, eff, lambda v: ("ret", v))
+            return self._flatten(node, eff, e)
+        fv = self.ev(e.func, env, eff)
+        args, kws = self._args(e, env, eff)
+        t = self.ctx.hook(("call", fv, tuple(args), tuple(sorted(kws))))
+        if t[0] == "call":
+            eff.append(t)
+        elif t[0] == "traced":           # hook: a modelled read/operation with a value of its own
+            eff.append(t[1])
+            t = t[2]
+        return t
+
+    def call_helper(self, hp, e, env, eff, kr):
+        fn, drop_self = hp
+        if self.ctx.depth > 6:
+            _fail("helper nesting too deep (recursion?)", e)
+        args, kws = self._args(e, env, eff)
+        env2 = self.bind_call(fn, drop_self, args, kws, env, eff, fn.name)
+        if drop_self:
+            env2["self"] = env.get("self", ("self",))
+        self.ctx.depth += 1
+        try:
+            return self.run(_body(fn), env2, lambda _e: kr(NONE), kr)
+        finally:
+            self.ctx.depth -= 1
+
+    def _flatten(self, node, eff, where):
+        """helper used as a value: straight-line effects then a value, or a pure conditional"""
+        while node[0] == "eff":
+            eff.append(node[1])
+            node = node[2]
+        if node[0] == "ret":
+            return node[1]
+        if node[0] == "if":
+            a, b = self._pure(node[2], where), self._pure(node[3], where)
+            return simplify_ite(node[1], a, b)
+        _fail("helper does not return a value here", where)
+
+    def _pure(self, node, where):
+        if node[0] == "ret":
+            return node[1]
+        if node[0] == "if":
+            return simplify_ite(node[1], self._pure(node[2], where), self._pure(node[3], where))
+        _fail("a helper with conditional effects is used inside an expression", where)
+
+    # ---------------------------------------------------------------- statements
+    def run(self, stmts, env, kf, kr, kc=None):
+        """execute `stmts`; kf(env) continues after falling off the end, kr(value) after `return`,
+        kc(env) after `continue` (None: the symbolic loop's next iteration, terminal ("cont",))"""
+        if not stmts:
+            return kf(env)
+        s, rest = stmts[0], stmts[1:]
+        nxt = lambda e2: self.run(rest, e2, kf, kr, kc)
+        if isinstance(s, ast.Expr) and isinstance(s.value, ast.Constant):
+            return nxt(env)
+        if isinstance(s, ast.Pass):
+            return nxt(env)
+        if isinstance(s, (ast.Import, ast.ImportFrom)):
+            return nxt(env)
+        if isinstance(s, ast.Expr) and isinstance(s.value, ast.Call) and self._helper_of(s.value):
+            eff = []
+            node = self.call_helper(self._helper_of(s.value), s.value, env, eff, lambda v: nxt(env))
+            return _chain(eff, node)
+        if isinstance(s, ast.Expr) and isinstance(s.value, (ast.Yield, ast.YieldFrom)):
+            if isinstance(s.value, ast.YieldFrom) or s.value.value is None:
+                _fail("yield form", s)
+            eff = []
+            v = self.ev(s.value.value, env, eff)
+            return _chain(eff + [("yield", v)], nxt(env))
+        if isinstance(s, ast.Expr):
+            eff = []
+            self.ev(s.value, env, eff)
+            return _chain(eff, nxt(env))
+        if isinstance(s, ast.Assign):
+            if len(s.targets) != 1:
+                _fail("chained assignment", s)
+            tgt = s.targets[0]
+            if isinstance(s.value, ast.Call) and self._helper_of(s.value) and isinstance(tgt, (ast.Name, ast.Tuple)):
+                eff = []
+
+                def k(v, tgt=tgt):
+                    e2 = dict(env)
+                    self._bind_target(tgt, v, e2)
+                    return nxt(e2)
+                node = self.call_helper(self._helper_of(s.value), s.value, env, eff, k)
+                return _chain(eff, node)
+            eff = []
+            v = self.ev(s.value, env, eff)
+            if isinstance(tgt, (ast.Name, ast.Tuple, ast.List)):
+                e2 = dict(env)
+                self._bind_target(tgt, v, e2)
+                return _chain(eff, nxt(e2))
+            if isinstance(tgt, ast.Attribute):
+                eff.append(("setattr", self.ev(tgt.value, env, eff), tgt.attr, v))
+                return _chain(eff, nxt(env))
+            if isinstance(tgt, ast.Subscript):
+                eff.append(("setitem", self.ev(tgt.value, env, eff), self.ev(tgt.slice, env, eff), v))
+                return _chain(eff, nxt(env))
+            _fail("assignment target", s)
+        if isinstance(s, ast.AugAssign):
+            eff = []
+            v = self.ev(s.value, env, eff)
+            if isinstance(s.target, ast.Attribute):
+                eff.append(("augattr", self.ev(s.target.value, env, eff), s.target.attr, type(s.op).__name__, v))
+                return _chain(eff, nxt(env))
+            if isinstance(s.target, ast.Name):
+                e2 = dict(env)
+                e2[s.target.id] = ("binop", type(s.op).__name__, env.get(s.target.id, ("global", s.target.id)), v)
+                return _chain(eff, nxt(e2))
+            _fail("augmented assignment target", s)
+        if isinstance(s, ast.Return):
+            if s.value is not None and isinstance(s.value, ast.Call) and self._helper_of(s.value):
+                eff = []
+                node = self.call_helper(self._helper_of(s.value), s.value, env, eff, kr)
+                return _chain(eff, node)
+            eff = []
+            v = NONE if s.value is None else self.ev(s.value, env, eff)
+            return _chain(eff, kr(v))
+        if isinstance(s, ast.Raise):
+            eff = []
+            v = NONE if s.exc is None else self.ev_quiet(s.exc, env)
+            return _chain(eff, ("raise", v))
+        if isinstance(s, ast.Continue):
+            return kc(env) if kc else ("cont",)
+        if isinstance(s, ast.Break):
+            _fail("break", s)
+        if isinstance(s, ast.If):
+            eff = []
+            c = self.ev(s.test, env, eff)
+            if c == TRUE:
+                return _chain(eff, self.run(list(s.body) + rest, env, kf, kr, kc))
+            if c == FALSE:
+                return _chain(eff, self.run(list(s.orelse) + rest, env, kf, kr, kc))
+            a = self.run(list(s.body), env, nxt, kr, kc)
+            b = self.run(list(s.orelse), env, nxt, kr, kc)
+            return _chain(eff, ("if", c, a, b))
+        if isinstance(s, ast.For):
+            if s.orelse:
+                _fail("for/else", s)
+            eff = []
+            it = self.ev(s.iter, env, eff)
+            if it[0] in ("tuple", "list") and len(it[1]) <= 8:
+                # a loop over a literal tuple / list (its items may be any values): unroll
+                unrolled = [(s.target, item) for item in it[1]]
+                return _chain(eff, self._unroll(unrolled, list(s.body), rest, env, kf, kr, kc))
+            e2 = dict(env)
+            lv = ("loopvar", _u(s.target), id(s))
+            bound = self.loop_binder(s, it) if self.loop_binder else None
+            if bound is not None:
+                e2.update(bound)
+            else:
+                self._bind_target(s.target, lv, e2)
+            body = self.run(list(s.body), e2, lambda _e: ("end",), kr)
+            # names assigned in the body are unknown afterwards
+            e3 = dict(env)
+            for n in ast.walk(s):
+                if isinstance(n, ast.Name) and isinstance(n.ctx, ast.Store):
+                    e3[n.id] = ("afterloop", n.id, id(s))
+            eff.append(("for", it, _target_names(s.target), body, lv))
+            return _chain(eff, nxt(e3))
+        _fail("unsupported statement", s)
+
+    def _unroll(self, items, body, rest, env, kf, kr, kc):
+        if not items:
+            return self.run(rest, env, kf, kr, kc)
+        (tgt, item), more = items[0], items[1:]
+        e2 = dict(env)
+        self._bind_target(tgt, item, e2)
+        again = lambda e3: self._unroll(more, body, rest, e3, kf, kr, kc)
+        return self.run(body, e2, again, kr, again)
+
+    def ev_quiet(self, e, env):
+        """value of an expression whose calls are not traced (exception constructors, messages)"""
+        try:
+            return self.ev(e, env, [])
+        except Unsupported:
+            return ("opaque", _u(e))
+
+    def run_function(self, fn, env):
+        return self.run(_body(fn), env, lambda _e: ("ret", NONE), lambda v: ("ret", v))
+
+
+def _target_names(t):
+    if isinstance(t, ast.Name):
+        return t.id
+    if isinstance(t, (ast.Tuple, ast.List)):
+        return tuple(_target_names(x) for x in t.elts)
+    _fail("loop target", t)
+
+
+def _chain(eff, node):
+    for e in reversed(eff):
+        node = ("eff", e, node)
     return node
 
 
 def _body(fn):
-    """statements of a function without its docstring"""
-    b = list(fn.body)
-    if b and isinstance(b[0], ast.Expr) and isinstance(b[0].value, ast.Constant) \
-            and isinstance(b[0].value.value, str):
-        b = b[1:]
-    return b
+    return list(fn.body)
 
 
-def _params(fn):
-    a = fn.args
-    if a.vararg or a.kwarg or a.kwonlyargs or a.posonlyargs:
-        _fail("unsupported parameter list of %s" % fn.name, fn)
-    return [x.arg for x in a.args]
+def is_boolish(c):
+    return c[0] in ("cmp", "not", "and", "or") or c in (TRUE, FALSE) or \
+        (c[0] == "call" and show(c[1]) in ("os.path.isfile", "os.path.exists", "os.path.isdir", "isinstance", "hasattr")) \
+        or c[0] in ("flag", "check")
 
 
-def _bind(call, sig, what):
-    """positional + keyword arguments of `call` against parameter names `sig` -> {param: node}"""
-    out = {}
-    if len(call.args) > len(sig):
-        _fail(what + ": too many positional arguments", call)
-    for p, a in zip(sig, call.args):
-        if isinstance(a, ast.Starred):
-            _fail(what + ": starred argument", call)
-        out[p] = a
-    for kw in call.keywords:
-        if kw.arg is None or kw.arg not in sig or kw.arg in out:
-            _fail(what + ": keyword %s" % kw.arg, call)
-        out[kw.arg] = kw.value
-    return out
-
-
-def _is_call(n, text):
-    return isinstance(n, ast.Call) and _u(n.func) == text
-
-
-def _expr_call(s, text):
-    return isinstance(s, ast.Expr) and _is_call(s.value, text)
-
-
-def _assign1(s):
-    """`name = value` -> (name, value) or None"""
-    if isinstance(s, ast.Assign) and len(s.targets) == 1 and isinstance(s.targets[0], ast.Name):
-        return s.targets[0].id, s.value
-    return None
+def simplify_ite(c, a, b):
+    if a == b:
+        return a
+    if a == TRUE and b == FALSE and is_boolish(c):
+        return c
+    if a == FALSE and b == TRUE and is_boolish(c):
+        return mk_not(c)
+    return ("ite", c, a, b)
 
 
 # ------------------------------------------------------------------------------------------------
-# boolean expressions over flags and existence-check variables
+# walking execution trees
+
+NEUTRAL_CALLS = {"pd.Timestamp.now", "log.warn", "log.warning", "log.info", "log.debug", "os.path.join",
+                 "os.path.exists", "os.makedirs", "str", "np.asarray", "list", "set", "len", "warn", "warnings.warn"}
 
 
-def _bexpr(n, env):
-    if isinstance(n, ast.BoolOp) and isinstance(n.op, (ast.And, ast.Or)):
-        op = " && " if isinstance(n.op, ast.And) else " || "
-        return "(" + op.join(_bexpr(v, env) for v in n.values) + ")"
-    if isinstance(n, ast.UnaryOp) and isinstance(n.op, ast.Not):
-        return "(negb %s)" % _bexpr(n.operand, env)
-    if isinstance(n, ast.Name) and n.id in env:
-        return env[n.id]
-    if isinstance(n, ast.Constant) and isinstance(n.value, bool):
-        return "true" if n.value else "false"
-    _fail("condition is not and/or/not over the flags and the existence checks", n)
+def is_neutral(eff, extra=()):
+    if eff[0] == "call":
+        n = show(eff[1])
+        return n in NEUTRAL_CALLS or n in extra
+    return False
+
+
+def collapse(node):
+    """merge branches that only differ in the value they return into one conditional value"""
+    if node[0] == "eff":
+        return ("eff", node[1], collapse(node[2]))
+    if node[0] == "if":
+        a, b = collapse(node[2]), collapse(node[3])
+        if a[0] == "ret" and b[0] == "ret":
+            return ("ret", simplify_ite(node[1], a[1], b[1]))
+        return ("if", node[1], a, b)
+    return node
+
+
+def leaves(node, path=()):
+    """all (effects, conditions, terminal) paths of a tree"""
+    if node[0] == "eff":
+        for e, c, t in leaves(node[2], path):
+            yield [node[1]] + e, c, t
+    elif node[0] == "if":
+        for e, c, t in leaves(node[2], path):
+            yield e, [(node[1], True)] + c, t
+        for e, c, t in leaves(node[3], path):
+            yield e, [(node[1], False)] + c, t
+    else:
+        yield [], [], node
+
+
+def straight(node, what, neutral=()):
+    """a tree without branching -> (effects without the neutral ones, terminal)"""
+    effs = []
+    while node[0] == "eff":
+        if not is_neutral(node[1], neutral):
+            effs.append(node[1])
+        node = node[2]
+    if node[0] == "if":
+        _fail("%s: unexpected branching on %s" % (what, show(node[1])))
+    return effs, node
+
+
+def fn_of(term):
+    return show(term[1]) if term[0] == "call" else None
+
+
+def kwget(term, sig, what):
+    """arguments of a call term bound against parameter names"""
+    out = {}
+    if len(term[2]) > len(sig):
+        _fail("%s: too many positional arguments" % what, term)
+    for n, a in zip(sig, term[2]):
+        out[n] = a
+    for n, v in term[3]:
+        if n not in sig or n in out:
+            _fail("%s: keyword %s" % (what, n), term)
+        out[n] = v
+    return out
 
 
 # ------------------------------------------------------------------------------------------------
 # Orchestrator._iter
 
-
 def _iter_facts(orch):
-    fn = _find(orch, "Orchestrator._iter")
-    if _params(fn) != ["self"]:
+    ctx = Ctx(orch, "Orchestrator", primitives={"_iter", "fit", "predict", "fit_predict", "_predict_proba_one",
+                                                "_print_progress"})
+    ex = Exec(ctx)
+    fn = ctx.method("_iter")
+    if _params(fn, True)[0]:
         _fail("_iter signature", fn)
-    body = _body(fn)
-    if len(body) != 1 or not isinstance(body[0], ast.For):
-        _fail("_iter must be one loop nest", fn)
-    nest = []          # "data" | "strat"
-    loop = body[0]
-    names = {}
-    clone_per_fold = False
-    while True:
-        if loop.orelse:
-            _fail("for/else in _iter", loop)
-        it = _u(loop.iter)
-        rest = None
-        if it == "zip(self.tasks, self.datasets)":
-            if not (isinstance(loop.target, ast.Tuple) and len(loop.target.elts) == 2
-                    and all(isinstance(e, ast.Name) for e in loop.target.elts)):
-                _fail("_iter: target of the dataset loop", loop)
-            names["task"], names["dataset"] = [e.id for e in loop.target.elts]
-            nest.append("data")
-            inner = []
-            for s in loop.body:
-                a = _assign1(s)
-                if _is_counter(s):
-                    continue
-                if a and _u(a[1]) == "%s.load()" % names["dataset"]:
-                    names["data"] = a[0]
-                elif a and "data" in names and _u(a[1]) == "%s[%s.target]" % (names["data"], names["task"]):
-                    names["y"] = a[0]
-                elif isinstance(s, ast.For):
-                    inner.append(s)
-                else:
-                    _fail("_iter: statement in the dataset loop", s)
-            if len(inner) != 1 or loop.body[-1] is not inner[0]:
-                _fail("_iter: the dataset loop must end with exactly one inner loop", loop)
-            rest = inner[0]
-        elif it == "self.strategies":
-            if not isinstance(loop.target, ast.Name):
-                _fail("_iter: target of the strategy loop", loop)
-            names["strategy"] = loop.target.id
-            nest.append("strat")
-            inner = [s for s in loop.body if isinstance(s, ast.For)]
-            for s in loop.body:
-                if not (_is_counter(s) or isinstance(s, ast.For)):
-                    _fail("_iter: statement in the strategy loop", s)
-            if len(inner) != 1 or loop.body[-1] is not inner[0]:
-                _fail("_iter: the strategy loop must end with exactly one inner loop", loop)
-            rest = inner[0]
-        elif isinstance(loop.iter, ast.Call) and _u(loop.iter.func) == "enumerate":
-            if set(nest) != {"data", "strat"}:
-                _fail("_iter: the fold loop must be innermost", loop)
-            b = _bind(loop.iter, ["iterable", "start"], "enumerate")
-            if _u(b["iterable"]) != "self.cv.split(%s, %s)" % (names.get("data"), names.get("y")):
-                _fail("_iter: folds are not self.cv.split(data, y)", loop)
-            start = 0
-            if "start" in b:
-                if not (isinstance(b["start"], ast.Constant) and isinstance(b["start"].value, int)):
-                    _fail("_iter: enumerate start", loop)
-                start = b["start"].value
-            t = loop.target
-            if not (isinstance(t, ast.Tuple) and len(t.elts) == 2 and isinstance(t.elts[0], ast.Name)
-                    and isinstance(t.elts[1], ast.Tuple) and len(t.elts[1].elts) == 2
-                    and all(isinstance(e, ast.Name) for e in t.elts[1].elts)):
-                _fail("_iter: target of the fold loop", loop)
-            names["cv_fold"] = t.elts[0].id
-            # sklearn convention: split yields (train positions, test positions)
-            names["train_idx"], names["test_idx"] = [e.id for e in t.elts[1].elts]
-            ys = None
-            for s in loop.body:
-                a = _assign1(s)
-                if a and a[0] == names["strategy"] and _u(a[1]) == "clone(%s)" % names["strategy"]:
-                    if ys is not None:
-                        _fail("_iter: clone after the yield", s)
-                    clone_per_fold = True
-                elif isinstance(s, ast.Expr) and isinstance(s.value, ast.Yield):
-                    if ys is not None:
-                        _fail("_iter: two yields", s)
-                    ys = s.value.value
-                else:
-                    _fail("_iter: statement in the fold loop", s)
-            if not (isinstance(ys, ast.Tuple) and all(isinstance(e, ast.Name) for e in ys.elts)):
-                _fail("_iter: yield of a tuple of names expected", loop)
-            want = [names[k] for k in ("task", "dataset", "data", "strategy", "cv_fold", "train_idx",
-                                       "test_idx")]
-            if [e.id for e in ys.elts] != want:
-                _fail("_iter: yields %s, expected %s" % ([e.id for e in ys.elts], want), loop)
-            return {"nest": nest, "start": start, "clone_per_fold": clone_per_fold,
-                    "roles": ["task", "dataset", "data", "strategy", "cv_fold", "train_idx", "test_idx"]}
-        else:
-            _fail("_iter: unknown loop", loop)
-        loop = rest
+    node = ex.run_function(fn, {"self": ("self",)})
+    nest, loopvars, clones, yields, split = [], {}, [], [], []
+    start = [None]
 
+    def walk(node, depth):
+        effs, term = straight(node, "_iter")            # loop bodies of _iter do not branch
+        if term[0] not in ("ret", "end"):
+            _fail("_iter: unexpected control flow")
+        for e in effs:
+            if e[0] in ("setattr", "augattr") and e[1] == ("self",) and e[2].endswith("_counter"):
+                continue                                         # progress display only
+            if e[0] == "call":
+                n = fn_of(e)
+                if n == "clone":
+                    clones.append((depth, e))
+                elif n == "self.cv.split":
+                    split.append(e)
+                elif not (n in ("zip", "enumerate") or (e[1][0] == "attr" and e[1][2] == "load" and not e[2] and not e[3])):
+                    _fail("_iter: unexpected call", e)
+                continue
+            if e[0] == "for":
+                it, tgt, body, lv = e[1], e[2], e[3], e[4]
+                n = fn_of(it)
+                if n == "zip" and [show(a) for a in it[2]] == ["self.tasks", "self.datasets"] and not it[3] \
+                        and isinstance(tgt, tuple) and len(tgt) == 2:
+                    kind = "data"
+                elif show(it) == "self.strategies" and isinstance(tgt, str):
+                    kind = "strat"
+                elif n == "enumerate":
+                    b = kwget(it, ["iterable", "start"], "enumerate")
+                    st = b.get("start", C(0))
+                    if st[0] != "const" or not isinstance(st[1], int) or isinstance(st[1], bool):
+                        _fail("_iter: enumerate start", it)
+                    start[0] = st[1]
+                    loopvars["split"] = b.get("iterable")
+                    if not (isinstance(tgt, tuple) and len(tgt) == 2 and isinstance(tgt[1], tuple) and len(tgt[1]) == 2):
+                        _fail("_iter: target of the fold loop must be (fold, (train, test))")
+                    kind = "fold"
+                else:
+                    _fail("_iter: unknown loop over", it)
+                if kind in nest:
+                    _fail("_iter: two %s loops" % kind)
+                nest.append(kind)
+                loopvars[kind] = (lv, depth + 1)
+                walk(body, depth + 1)
+                continue
+            if e[0] == "yield":
+                yields.append((depth, list(nest), e[1]))
+                continue
+            _fail("_iter: unexpected effect", e)
 
-def _is_counter(s):
-    """self._strategy_counter = 0 / self._dataset_counter += 1 (progress display only)"""
-    if isinstance(s, ast.Assign) and len(s.targets) == 1:
-        t = s.targets[0]
-    elif isinstance(s, ast.AugAssign):
-        t = s.target
+    walk(node, 0)
+    if len(yields) != 1 or yields[0][1] not in (["data", "strat", "fold"], ["strat", "data", "fold"]) or yields[0][0] != 3:
+        _fail("_iter: exactly one yield, inside the three loops with the folds innermost, expected")
+    rec = yields[0][2]
+    if rec[0] != "tuple" or len(rec[1]) != 7:
+        _fail("_iter: must yield (task, dataset, data, strategy, cv_fold, train_idx, test_idx)")
+    task, dataset, data, strategy, fold, tr, te = rec[1]
+    zlv, slv, flv = loopvars["data"][0], loopvars["strat"][0], loopvars["fold"][0]
+    if [task, dataset] != [("proj", zlv, 0, 2), ("proj", zlv, 1, 2)]:
+        _fail("_iter: task / dataset are not the pair of zip(self.tasks, self.datasets)")
+    if data != ("call", ("attr", dataset, "load"), (), ()):
+        _fail("_iter: data is not dataset.load()", data)
+    pair = ("proj", flv, 1, 2)
+    if [fold, tr, te] != [("proj", flv, 0, 2), ("proj", pair, 0, 2), ("proj", pair, 1, 2)]:
+        _fail("_iter: (cv_fold, (train_idx, test_idx)) are not the components of enumerate(...)")
+    want_split = ("call", ("attr", ("attr", ("self",), "cv"), "split"), (data, ("sub", data, ("attr", task, "target"))), ())
+    if loopvars["split"] != want_split:
+        _fail("_iter: the folds are not self.cv.split(data, data[task.target])", loopvars["split"])
+    # the strategy handed out: a clone of the strategy-loop variable, made inside the fold loop
+    if strategy == slv:
+        clone_per_fold = False
+    elif strategy == ("call", ("global", "clone"), (slv,), ()):
+        clone_per_fold = [d for d, _ in clones] == [loopvars["fold"][1]]
     else:
-        return False
-    return (isinstance(t, ast.Attribute) and _u(t.value) == "self" and t.attr.endswith("_counter")
-            and isinstance(s.value, ast.Constant))
+        _fail("_iter: the strategy handed out is neither the loop variable nor clone(<it>)", strategy)
+    return {"nest": yields[0][1][:2], "start": start[0], "clone_per_fold": clone_per_fold,
+            "roles": ["task", "dataset", "data", "strategy", "cv_fold", "train_idx", "test_idx"]}
 
 
 # ------------------------------------------------------------------------------------------------
 # Orchestrator.fit_predict
 
+def _fp_hook(roles):
+    """symbolic reading of the loop body's values"""
+    strategy, dataset, task, data, fold = ("role", "strategy"), ("role", "dataset"), ("role", "task"), ("role", "data"), ("role", "cv_fold")
+    sname, dname = ("attr", strategy, "name"), ("attr", dataset, "name")
 
-def _is_timestamp(s):
-    a = _assign1(s)
-    return bool(a) and a[0].endswith("_time") and _u(a[1]) == "pd.Timestamp.now()"
+    def hook(t):
+        k = t[0]
+        if k == "sub" and t[1] == ("attr", data, "iloc") and t[2][0] == "idx":
+            return ("rows", t[2][1])
+        if k == "sub" and t[1][0] == "attr" and t[1][2] == "loc" and t[1][1][0] == "rows" \
+                and t[2] == ("tuple", (SLICE_ALL, ("attr", task, "target"))):
+            return ("ytrue", t[1][1][1])
+        if k == "call":
+            n = fn_of(t)
+            if n == "pd.Timestamp.now" and not t[2] and not t[3]:
+                return ("time",)
+            if t[1] == ("attr", ("attr", ("self",), "results"), "check_predictions_exist"):
+                b = kwget(t, KEYSIG, "check_predictions_exist")
+                part = b.get("train_or_test")
+                if [b.get(x) for x in KEYSIG[:3]] != [sname, dname, fold] or part not in (C("train"), C("test")):
+                    _fail("check_predictions_exist is not asked about (strategy.name, dataset.name, cv_fold, 'train'|'test')", t)
+                item = ITEM[("csv", part[1])]
+                return ("traced", ("checkcall", item), ("check", item))
+            if t[1] == ("attr", ("attr", ("self",), "results"), "check_fitted_strategy_exists"):
+                b = kwget(t, KEYSIG[:3], "check_fitted_strategy_exists")
+                if [b.get(x) for x in KEYSIG[:3]] != [sname, dname, fold]:
+                    _fail("check_fitted_strategy_exists is not asked about (strategy.name, dataset.name, cv_fold)", t)
+                return ("traced", ("checkcall", "IFit"), ("check", "IFit"))
+            if t[1] == ("attr", strategy, "predict"):
+                if len(t[2]) != 1 or t[3] or t[2][0][0] != "rows":
+                    _fail("strategy.predict is not called on a part of the fold", t)
+                return ("traced", ("predict", t[2][0][1]), ("pred", t[2][0][1]))
+            if n == "self._predict_proba_one":
+                return ("traced", ("neutral",), ("proba",))     # y_proba is outside the model
+        return t
+    return hook, sname, dname
+
+
+def _cond(c, what):
+    k = c[0]
+    if k == "flag":
+        return FLAGS[c[1]]
+    if k == "check":
+        return "(%s hdd (tkey t %s) st)" % ("gen_has_fit" if c[1] == "IFit" else "gen_has_pred", c[1])
+    if k == "not":
+        return "(negb %s)" % _cond(c[1], what)
+    if k in ("and", "or"):
+        return "(" + (" && " if k == "and" else " || ").join(_cond(x, what) for x in c[1]) + ")"
+    if k == "const" and isinstance(c[1], bool):
+        return "true" if c[1] else "false"
+    _fail("%s: condition is not and/or/not over the flags and the existence checks" % what, c)
 
 
 def _fit_predict_facts(orch, roles):
-    fn = _find(orch, "Orchestrator.fit_predict")
-    params = _params(fn)
-    if params[0] != "self" or any(f not in params for f in FLAGS):
+    hook, sname, dname = _fp_hook(roles)
+    ctx = Ctx(orch, "Orchestrator", primitives={"_iter", "fit", "predict", "fit_predict", "_predict_proba_one",
+                                                "_print_progress"}, hook=hook)
+    def binder(stmt, it):
+        if show(it) != "self._iter()":
+            return None
+        names = _target_names(stmt.target)
+        if not (isinstance(names, tuple) and len(names) == len(roles) and all(isinstance(n, str) for n in names)):
+            _fail("fit_predict: the loop must unpack the %d values _iter yields" % len(roles), stmt)
+        return {n: ("idx", "ITrain") if r == "train_idx" else ("idx", "ITest") if r == "test_idx" else ("role", r)
+                for n, r in zip(names, roles)}
+
+    ex = Exec(ctx, binder)
+    fn = ctx.method("fit_predict")
+    params, _ = _params(fn, True)
+    if any(f not in params for f in FLAGS):
         _fail("fit_predict signature %s" % params, fn)
-    body = _body(fn)
-    if len(body) != 3:
-        _fail("fit_predict must be: flag validation, the loop, results.save()", fn)
-    val, loop, save = body
-    # 1. flag validation
-    if not (isinstance(val, ast.If) and not val.orelse and len(val.body) == 1
-            and isinstance(val.body[0], ast.Raise) and isinstance(val.body[0].exc, ast.Call)
-            and _u(val.body[0].exc.func) == "ValueError"):
-        _fail("fit_predict: the first statement must be `if <flags>: raise ValueError(...)`", val)
-    rejects = _bexpr(val.test, FLAGS)
-    # 3. master file only after the loop
-    if not (_expr_call(save, "self.results.save") and not save.value.args and not save.value.keywords):
-        _fail("fit_predict: the last statement must be self.results.save()", save)
-    # 2. the loop over _iter
-    if not (isinstance(loop, ast.For) and not loop.orelse and _u(loop.iter) == "self._iter()"
-            and isinstance(loop.target, ast.Tuple) and len(loop.target.elts) == len(roles)
-            and all(isinstance(e, ast.Name) for e in loop.target.elts)):
-        _fail("fit_predict: loop over self._iter() with %d names expected" % len(roles), loop)
-    v = dict(zip(roles, [e.id for e in loop.target.elts]))       # role -> local name
-    sname, dname, fold = "%s.name" % v["strategy"], "%s.name" % v["dataset"], v["cv_fold"]
-    idx_item = {v["train_idx"]: "ITrain", v["test_idx"]: "ITest"}
-    stmts = list(loop.body)
-    checks = []        # (variable, item) in source order
-    env = dict(FLAGS)
-    i = 0
-    # phase A: the existence checks
-    while i < len(stmts):
-        a = _assign1(stmts[i])
-        if not (a and isinstance(a[1], ast.Call) and _u(a[1].func).startswith("self.results.check_")):
-            break
-        name, call = a
-        meth = _u(call.func)[len("self.results."):]
-        if meth == "check_predictions_exist":
-            b = _bind(call, KEYSIG, meth)
-            part = b.get("train_or_test")
-            if not (isinstance(part, ast.Constant) and part.value in ("train", "test")):
-                _fail("check_predictions_exist: train_or_test must be the literal 'train' or 'test'", call)
-            item = ITEM[("csv", part.value)]
-        elif meth == "check_fitted_strategy_exists":
-            b = _bind(call, KEYSIG[:3], meth)
-            item = "IFit"
-        else:
-            _fail("unknown existence check", call)
-        if [_u(b.get(k)) if b.get(k) is not None else None for k in KEYSIG[:3]] != [sname, dname, fold]:
-            _fail("%s is not asked about (strategy.name, dataset.name, cv_fold)" % meth, call)
-        if name in env:
-            _fail("existence-check variable assigned twice", stmts[i])
-        env[name] = name
-        checks.append((name, item))
-        i += 1
-    if sorted(it for _, it in checks) != ["IFit", "ITest", "ITrain"]:
-        _fail("fit_predict: expected the three existence checks first, found %s" % checks, loop)
-    # the skip test
-    sk = stmts[i]
-    if not (isinstance(sk, ast.If) and not sk.orelse):
-        _fail("fit_predict: the skip test must follow the existence checks", sk)
-    skip = _bexpr(sk.test, env)
-    sb = [s for s in sk.body if not (isinstance(s, ast.Expr) and _u(s.value).startswith("log."))]
-    if not (len(sb) == 2 and _expr_call(sb[0], "self.results._append_key")
-            and [_u(x) for x in sb[0].value.args] == [sname, dname] and not sb[0].value.keywords
-            and isinstance(sb[1], ast.Continue)):
-        _fail("fit_predict: the skip branch must register (strategy.name, dataset.name) and continue", sk)
-    i += 1
-    # the work: fit, then guarded save / predict blocks
-    part_of = {}       # local data variable -> item of the positions it was selected with
-    ops = []           # (guard or None, op text)
-    fitted = False
-    for s in stmts[i:]:
-        a = _assign1(s)
-        if a and isinstance(a[1], ast.Subscript) and _u(a[1].value) == "%s.iloc" % v["data"]:
-            ix = _u(a[1].slice)
-            if ix not in idx_item:
-                _fail("selection of instances by something else than the fold's positions", s)
-            part_of[a[0]] = idx_item[ix]
-        elif _is_timestamp(s) or _expr_call(s, "self._print_progress"):
-            continue
-        elif _expr_call(s, "%s.fit" % v["strategy"]):
-            args = [_u(x) for x in s.value.args]
-            if s.value.keywords or len(args) != 2 or args[0] != v["task"] or part_of.get(args[1]) != "ITrain":
-                _fail("strategy.fit is not called as fit(task, <the fold's training instances>)", s)
-            if fitted or ops:
-                _fail("strategy.fit must be the first and only fit of the iteration", s)
-            fitted = True
-            ops.append((None, "OFit t"))
-        elif isinstance(s, ast.If) and not s.orelse:
-            if not fitted:
-                _fail("save / predict before the fit", s)
-            ops.append((_bexpr(s.test, env), _guarded_block(s, v, sname, dname, fold, idx_item, part_of)))
-        else:
-            _fail("fit_predict: statement in the loop body", s)
-    if not fitted:
-        _fail("fit_predict: no strategy.fit in the loop body", loop)
-    return {"rejects": rejects, "checks": checks, "skip": skip, "ops": ops}
+    env = {"self": ("self",)}
+    for p in params:
+        env[p] = ("flag", p) if p in FLAGS else ("param", p)
+    node = ex.run_function(fn, env)
+    # --- top level: (neutral)*, if <flags>: raise ValueError, the loop, results.save(), end
+    neutral = {"self._print_progress"}
 
+    def top(node, cond_path):
+        while node[0] == "eff" and is_neutral(node[1], neutral):
+            node = node[2]
+        return node
+    node = top(node, [])
+    if node[0] != "if":
+        _fail("fit_predict must start with the validation of the flags")
+    c, a, b = node[1], top(node[2], []), top(node[3], [])
+    if a[0] == "raise":
+        rejects, rest = c, b
+    elif b[0] == "raise":
+        rejects, rest = mk_not(c), a
+    else:
+        _fail("fit_predict: the flag validation must raise")
+    bad = a if a[0] == "raise" else b
+    if not (bad[1][0] == "call" and show(bad[1][1]) == "ValueError"):
+        _fail("fit_predict: the flag validation must raise ValueError", bad[1])
+    rest = top(rest, [])
+    if not (rest[0] == "eff" and rest[1][0] == "call" and show(rest[1][1]) == "self._iter"):
+        _fail("fit_predict: the loop must run over self._iter()")
+    rest = rest[2]
+    if not (rest[0] == "eff" and rest[1][0] == "for" and show(rest[1][1]) == "self._iter()"):
+        _fail("fit_predict: the loop over self._iter() must follow the flag validation")
+    loop = rest[1]
+    after = top(rest[2], [])
+    if not (after[0] == "eff" and after[1][0] == "call" and show(after[1]) == "self.results.save()"):
+        _fail("fit_predict: self.results.save() must be the statement after the loop")
+    fin = top(after[2], [])
+    if fin[0] != "ret":
+        _fail("fit_predict: nothing may follow self.results.save()")
+    body = loop[3]
+    fold = ("role", "cv_fold")
+    strategy = ("role", "strategy")
 
-def _guarded_block(s, v, sname, dname, fold, idx_item, part_of):
-    """body of `if <guard>:` -> the op it performs"""
-    b = s.body
-    if len(b) == 1 and _expr_call(b[0], "self.results.save_fitted_strategy"):
-        bd = _bind(b[0].value, ["strategy", "dataset_name", "cv_fold"], "save_fitted_strategy")
-        if [_u(bd.get(k)) if bd.get(k) is not None else None for k in ("strategy", "dataset_name", "cv_fold")] \
-                != [v["strategy"], dname, fold]:
-            _fail("save_fitted_strategy is not given (strategy, dataset.name, cv_fold)", b[0])
-        return "OSave t"
-    # a predict block
-    loc = {}
-    call = None
-    for st in b:
-        a = _assign1(st)
-        if _is_timestamp(st):
-            continue
-        if a and isinstance(a[1], ast.Subscript) and isinstance(a[1].value, ast.Attribute) \
-                and a[1].value.attr == "loc" and _u(a[1].slice) == "(slice(None, None, None), %s.target)" % v["task"] \
-                or a and isinstance(a[1], ast.Subscript) and _u(a[1]).endswith(".loc[:, %s.target]" % v["task"]):
-            src = _u(a[1].value.value)
-            if src not in part_of:
-                _fail("true values taken from an unknown frame", st)
-            loc[a[0]] = ("ytrue", part_of[src])
-        elif a and _is_call(a[1], "%s.predict" % v["strategy"]):
-            args = [_u(x) for x in a[1].args]
-            if a[1].keywords or len(args) != 1 or args[0] not in part_of:
-                _fail("strategy.predict is not called on a part of the fold", st)
-            loc[a[0]] = ("pred", part_of[args[0]])
-        elif a and _is_call(a[1], "self._predict_proba_one"):
-            loc[a[0]] = ("proba", None)                      # y_proba is outside the model
-        elif _expr_call(st, "self.results.save_predictions") and call is None and st is b[-1]:
-            call = st.value
-        else:
-            _fail("statement in a predict block", st)
-    if call is None:
-        _fail("a guarded block that neither saves a fitted strategy nor predictions", s)
-    sig = ["strategy_name", "dataset_name", "y_true", "y_pred", "y_proba", "index", "cv_fold",
-           "train_or_test", "fit_estimator_start_time", "fit_estimator_end_time",
-           "predict_estimator_start_time", "predict_estimator_end_time"]
-    bd = _bind(call, sig, "save_predictions")
-    part = bd.get("train_or_test")
-    if not (isinstance(part, ast.Constant) and part.value in ("train", "test")):
-        _fail("save_predictions: train_or_test must be the literal 'train' or 'test'", call)
-    item = ITEM[("csv", part.value)]
-    got = {"strategy_name": _u(bd["strategy_name"]) if "strategy_name" in bd else None,
-           "dataset_name": _u(bd["dataset_name"]) if "dataset_name" in bd else None,
-           "cv_fold": _u(bd["cv_fold"]) if "cv_fold" in bd else None}
-    if got != {"strategy_name": sname, "dataset_name": dname, "cv_fold": fold}:
-        _fail("save_predictions is not given (strategy.name, dataset.name, cv_fold)", call)
-    if "index" not in bd or idx_item.get(_u(bd["index"])) != item:
-        _fail("the record stored as %r does not carry the positions of that part" % part.value, call)
-    for k, role in (("y_true", "ytrue"), ("y_pred", "pred")):
-        if k not in bd or loc.get(_u(bd[k])) != (role, item):
-            _fail("the record stored as %r: %s is not the %s of that part" % (
-                part.value, k, "true values" if role == "ytrue" else "prediction"), call)
-    return "OPred t %s" % item
+    def emit(node, acted, pending):
+        """tree -> Gallina term of type list op"""
+        if node[0] == "if":
+            if pending:
+                _fail("a prediction is computed but its record is stored conditionally")
+            return "(if %s\n   then %s\n   else %s)" % (_cond(node[1], "fit_predict"), emit(node[2], acted, None),
+                                                        emit(node[3], acted, None))
+        if node[0] in ("cont", "end"):
+            if pending:
+                _fail("a prediction on the %s part is computed but never stored" % pending)
+            return "[]"
+        if node[0] != "eff":
+            _fail("fit_predict: unexpected control flow in the loop body (%s)" % node[0])
+        e, nxt = node[1], node[2]
+        if e == ("neutral",) or is_neutral(e, neutral):
+            return emit(nxt, acted, pending)
+        if e[0] == "checkcall":
+            if acted:
+                _fail("existence check of %s evaluated after the iteration has already fitted / written" % e[1])
+            return emit(nxt, acted, pending)
+        if e[0] == "predict":
+            if pending:
+                _fail("two predictions without storing the first")
+            return emit(nxt, True, e[1])
+        if e[0] == "call":
+            f = e[1]
+            if f == ("attr", ("attr", ("self",), "results"), "_append_key"):
+                if list(e[2]) != [sname, dname] or e[3]:
+                    _fail("_append_key is not given (strategy.name, dataset.name)", e)
+                return "[OReg t] ++ " + emit(nxt, True, pending)
+            if f == ("attr", strategy, "fit"):
+                if e[3] or list(e[2]) != [("role", "task"), ("rows", "ITrain")]:
+                    _fail("strategy.fit is not called as fit(task, <the fold's training instances>)", e)
+                if pending:
+                    _fail("fit between a prediction and its record")
+                return "[OFit t] ++ " + emit(nxt, True, pending)
+            if f == ("attr", ("attr", ("self",), "results"), "save_fitted_strategy"):
+                b = kwget(e, ["strategy", "dataset_name", "cv_fold"], "save_fitted_strategy")
+                if [b.get(k) for k in ("strategy", "dataset_name", "cv_fold")] != [strategy, dname, fold]:
+                    _fail("save_fitted_strategy is not given (strategy, dataset.name, cv_fold)", e)
+                if pending:
+                    _fail("save_fitted_strategy between a prediction and its record")
+                return "[OSave t] ++ " + emit(nxt, True, pending)
+            if f == ("attr", ("attr", ("self",), "results"), "save_predictions"):
+                sig = ["strategy_name", "dataset_name", "y_true", "y_pred", "y_proba", "index", "cv_fold",
+                       "train_or_test", "fit_estimator_start_time", "fit_estimator_end_time",
+                       "predict_estimator_start_time", "predict_estimator_end_time"]
+                b = kwget(e, sig, "save_predictions")
+                part = b.get("train_or_test")
+                if part not in (C("train"), C("test")):
+                    _fail("save_predictions: train_or_test must be the literal 'train' or 'test'", e)
+                item = ITEM[("csv", part[1])]
+                if [b.get(k) for k in ("strategy_name", "dataset_name", "cv_fold")] != [sname, dname, fold]:
+                    _fail("save_predictions is not given (strategy.name, dataset.name, cv_fold)", e)
+                if b.get("index") != ("idx", item):
+                    _fail("the record stored as %r does not carry the positions of that part" % part[1], e)
+                if b.get("y_true") != ("ytrue", item):
+                    _fail("the record stored as %r: y_true is not the true values of that part" % part[1], e)
+                if b.get("y_pred") != ("pred", item) or pending != item:
+                    _fail("the record stored as %r: y_pred is not the prediction just made on that part" % part[1], e)
+                return "[OPred t %s] ++ " % item + emit(nxt, True, None)
+        _fail("fit_predict: unexpected operation in the loop body", e)
+
+    plan = emit(body, False, None)
+    return {"rejects": _cond(rejects, "flag validation"), "plan": plan}
 
 
 # ------------------------------------------------------------------------------------------------
 # results.py / base.py
 
+def _results_hook(t):
+    if t[0] == "call":
+        if t[1] == ("attr", ("self",), "_generate_key"):
+            b = kwget(t, KEYSIG, "_generate_key")
+            if sorted(b) != sorted(KEYSIG):
+                _fail("_generate_key needs all four fields", t)
+            return ("genkey", tuple(b[k] for k in KEYSIG))
+        if fn_of(t) == "np.asarray" and len(t[2]) == 1 and not t[3]:
+            return t[2][0]                       # array conversion: the same values
+    return t
 
-def _key_expr(n, suffix, what):
-    """`self._generate_key(<4 fields>) + ".<suffix>"` (suffix None: no suffix) -> {field: text}"""
+
+RES_PRIMS = {"_generate_key", "_append_key", "_iter", "save", "save_predictions", "load_predictions",
+             "check_predictions_exist", "check_fitted_strategy_exists", "save_fitted_strategy",
+             "load_fitted_strategy"}
+
+
+def _key(term, suffix, fields, what):
+    """the file / dict key addressed by `term` must be the one of `fields` with this suffix"""
+    want = ("genkey", tuple(fields))
     if suffix is not None:
-        if not (isinstance(n, ast.BinOp) and isinstance(n.op, ast.Add) and isinstance(n.right, ast.Constant)
-                and n.right.value == "." + suffix):
-            _fail("%s: file name must be _generate_key(...) + '.%s'" % (what, suffix), n)
-        n = n.left
-    if not _is_call(n, "self._generate_key"):
-        _fail("%s: key not built by self._generate_key" % what, n)
-    b = _bind(n, KEYSIG, what)
-    if sorted(b) != sorted(KEYSIG):
-        _fail("%s: _generate_key needs all four fields" % what, n)
-    return {k: _u(x) for k, x in b.items()}
+        want = ("add", want, C("." + suffix))
+    if term != want:
+        _fail("%s addresses %s, expected %s" % (what, show(term), show(want)))
 
 
-def _isfile_result(stmts, var, what):
-    """`if os.path.isfile(var): return True else: return False`  or  `return os.path.isfile(var)`"""
-    if len(stmts) == 1 and isinstance(stmts[0], ast.Return) and _u(stmts[0].value) == "os.path.isfile(%s)" % var:
-        return
-    if len(stmts) == 1 and isinstance(stmts[0], ast.If) and _u(stmts[0].test) == "os.path.isfile(%s)" % var \
-            and [_u(x) for x in stmts[0].body] == ["return True"] and [_u(x) for x in stmts[0].orelse] == ["return False"]:
-        return
-    _fail("%s: must answer os.path.isfile(%s)" % (what, var), stmts[0] if stmts else None)
+def _value_fn(ex, ctx, name, sig, what):
+    fn = ctx.method(name)
+    names, _ = _params(fn, True)
+    if names != sig:
+        _fail("%s signature %s" % (what, names), fn)
+    env = {"self": ("self",)}
+    env.update({n: ("param", n) for n in names})
+    return ex.run_function(fn, env)
 
 
-def _uses_all_fields(fn, what):
-    """the key function mentions each of its four parameters in what it returns"""
-    if _params(fn) != ["self"] + KEYSIG:
-        _fail("%s signature" % what, fn)
-    names = {n.id for n in ast.walk(fn) if isinstance(n, ast.Name)}
-    if not set(KEYSIG) <= names:
-        _fail("%s does not use all of %s" % (what, KEYSIG), fn)
-    rets = [s for s in ast.walk(fn) if isinstance(s, ast.Return)]
-    if len(rets) != 1:
-        _fail("%s: exactly one return expected" % what, fn)
-    # every field must flow into the returned value: directly or through a local assigned once
-    flow = {n.id for n in ast.walk(rets[0]) if isinstance(n, ast.Name)}
-    changed = True
-    while changed:
-        changed = False
-        for s in ast.walk(fn):
-            a = _assign1(s) if isinstance(s, ast.Assign) else None
-            if a and a[0] in flow:
-                new = {n.id for n in ast.walk(a[1]) if isinstance(n, ast.Name)} - flow
-                if new:
-                    flow |= new
-                    changed = True
-    if not set(KEYSIG) <= flow:
-        _fail("%s: the returned key does not depend on all of %s" % (what, KEYSIG), fn)
+def _P(n):
+    return ("param", n)
 
 
 def _wrapper_sig(base):
-    fn = _find(base, "_PredictionsWrapper.__init__")
-    a = fn.args
-    sig = [x.arg for x in a.args][1:]
-    stores = {}
-    for s in ast.walk(fn):
-        if isinstance(s, ast.Assign) and len(s.targets) == 1 and isinstance(s.targets[0], ast.Attribute) \
-                and _u(s.targets[0].value) == "self" and isinstance(s.value, ast.Name):
-            stores[s.targets[0].attr] = s.value.id
+    ctx = Ctx(base, "_PredictionsWrapper")
+    fn = ctx.method("__init__")
+    sig, _ = _params(fn, True)
+    node = Exec(ctx).run_function(fn, dict({"self": ("self",)}, **{n: _P(n) for n in sig}))
+    kept = {}
+    for effs, _c, _t in leaves(node):
+        for e in effs:
+            if e[0] == "setattr" and e[1] == ("self",):
+                kept.setdefault(e[2], set()).add(e[3])
     for f in ("strategy_name", "dataset_name", "index", "y_true", "y_pred"):
-        if stores.get(f) != f or f not in sig:
+        if kept.get(f) != {_P(f)} or f not in sig:
             _fail("_PredictionsWrapper does not keep its argument %s as attribute %s" % (f, f), fn)
     return sig
 
 
-def _append_then(stmts, sarg, darg, what):
-    """last statement registers the names"""
-    s = stmts[-1]
-    if not (_expr_call(s, "self._append_key") and [_u(x) for x in s.value.args] == [sarg, darg]
-            and not s.value.keywords):
-        _fail("%s must end with self._append_key(%s, %s)" % (what, sarg, darg), s)
+def _uses_all_fields(ctx, what):
+    """the key function's result depends on each of its four parameters"""
+    fn = ctx.method("_generate_key")
+    names, _ = _params(fn, True)
+    if names != KEYSIG:
+        _fail("%s signature" % what, fn)
+    ex = Exec(Ctx(ctx.mod, None))                 # no hook: _generate_key itself is executed
+    env = {"self": ("self",)}
+    env.update({n: _P(n) for n in names})
+    node = ex.run_function(fn, env)
+    for effs, _c, term in leaves(node):
+        if term[0] != "ret":
+            _fail("%s: must return the key on every path" % what, fn)
+        flat = repr(term[1])
+        for n in KEYSIG:
+            if repr(_P(n)) not in flat:
+                _fail("%s: the returned key does not depend on %s" % (what, n), fn)
 
 
-def _own(fields, mapping):
-    return all(fields[k] == mapping.get(k, k) for k in KEYSIG)
+def _isfile_of(node, what):
+    effs, term = straight(collapse(node), what, neutral={"os.path.isfile"})
+    if effs or term[0] != "ret":
+        _fail("%s: must only answer whether the file exists" % what)
+    v = term[1]
+    if not (v[0] == "call" and fn_of(v) == "os.path.isfile" and len(v[2]) == 1 and not v[3]):
+        _fail("%s: must answer os.path.isfile(<file>)" % what, v)
+    return v[2][0]
 
 
 def _hdd_facts(res, wsig):
+    ctx = Ctx(res, "HDDResults", primitives=RES_PRIMS, hook=_results_hook)
+    ex = Exec(ctx)
     f = {}
-    cls = "HDDResults"
+    own = [_P(k) for k in KEYSIG]
     # existence checks
-    fn = _find(res, cls + ".check_predictions_exist")
-    if _params(fn) != ["self"] + KEYSIG:
-        _fail("check_predictions_exist signature", fn)
-    b = _body(fn)
-    a = _assign1(b[0])
-    if not a or not _own(_key_expr(a[1], "csv", "check_predictions_exist"), {}):
-        _fail("check_predictions_exist does not look at the record of its own four arguments", b[0])
-    _isfile_result(b[1:], a[0], "check_predictions_exist")
-    fn = _find(res, cls + ".check_fitted_strategy_exists")
-    if _params(fn) != ["self"] + KEYSIG[:3]:
-        _fail("check_fitted_strategy_exists signature", fn)
-    b = _body(fn)
-    a = _assign1(b[0])
-    if not a or not _own(_key_expr(a[1], "pickle", "check_fitted_strategy_exists"), {"train_or_test": "'train'"}):
-        _fail("check_fitted_strategy_exists does not look at <strategy>_train_<fold>.pickle", b[0])
-    _isfile_result(b[1:], a[0], "check_fitted_strategy_exists")
+    _key(_isfile_of(_value_fn(ex, ctx, "check_predictions_exist", KEYSIG, "check_predictions_exist"),
+                    "check_predictions_exist"), "csv", own, "check_predictions_exist")
+    _key(_isfile_of(_value_fn(ex, ctx, "check_fitted_strategy_exists", KEYSIG[:3], "check_fitted_strategy_exists"),
+                    "check_fitted_strategy_exists"), "pickle", own[:3] + [C("train")], "check_fitted_strategy_exists")
     f["has_pred"] = f["has_fit"] = "fhas k (sfiles st)"
-    # save_predictions
-    fn = _find(res, cls + ".save_predictions")
-    b = _body(fn)
-    if len(b) != 4:
-        _fail("HDDResults.save_predictions: key, DataFrame, to_csv, _append_key expected", fn)
-    a = _assign1(b[0])
-    if not a or not _own(_key_expr(a[1], "csv", "save_predictions"), {}):
-        _fail("save_predictions does not write the record of its own four arguments", b[0])
-    keyvar = a[0]
-    d = _assign1(b[1])
-    if not (d and _is_call(d[1], "pd.DataFrame") and len(d[1].args) == 1 and not d[1].keywords
-            and isinstance(d[1].args[0], ast.Dict)):
-        _fail("save_predictions: pd.DataFrame({...}) expected", b[1])
+    # save_predictions: frame -> file, then register
+    fn = ctx.method("save_predictions")
+    sig, _ = _params(fn, True)
+    node = ex.run_function(fn, dict({"self": ("self",)}, **{n: _P(n) for n in sig}))
+    effs, term = straight(node, "HDDResults.save_predictions", neutral={"pd.DataFrame"})
+    if term[0] != "ret" or len(effs) != 2:
+        _fail("HDDResults.save_predictions: write the frame, then _append_key expected, found %s" % [show(e) for e in effs])
+    w, a = effs
+    if not (w[0] == "call" and w[1][0] == "attr" and w[1][2] == "to_csv" and fn_of(w[1][1]) == "pd.DataFrame"):
+        _fail("HDDResults.save_predictions: the first operation must write a DataFrame with to_csv", w)
+    frame = w[1][1]
+    if len(frame[2]) != 1 or frame[3] or frame[2][0][0] != "dict":
+        _fail("save_predictions: pd.DataFrame({...}) expected", frame)
+    b = kwget(w, ["path_or_buf", "sep", "na_rep", "float_format", "columns", "header", "index"], "to_csv")
+    if "float_format" in b:
+        _fail("save_predictions: to_csv(float_format=...) loses digits")
+    if set(b) - {"path_or_buf", "header", "index"}:
+        _fail("save_predictions: to_csv keywords %s" % sorted(b))
+    _key(b.get("path_or_buf"), "csv", own, "HDDResults.save_predictions")
     cols = {}
-    for k, val in zip(d[1].args[0].keys, d[1].args[0].values):
-        if not (isinstance(k, ast.Constant) and isinstance(val, ast.Name)):
-            _fail("save_predictions: DataFrame column", b[1])
-        cols[k.value] = val.id
-    if not (_expr_call(b[2], "%s.to_csv" % d[0]) and b[2].value.args and _u(b[2].value.args[0]) == keyvar):
-        _fail("save_predictions: the frame is not written to the key", b[2])
-    for kw in b[2].value.keywords:
-        if kw.arg == "float_format":
-            _fail("save_predictions: to_csv(float_format=...) loses digits", b[2])
-        if kw.arg not in ("index", "header"):
-            _fail("save_predictions: to_csv keyword %s" % kw.arg, b[2])
-    _append_then(b, "strategy_name", "dataset_name", "HDDResults.save_predictions")
-    f["cols"] = cols
-    # load_predictions
-    fn = _find(res, cls + ".load_predictions")
-    if _params(fn) != ["self", "cv_fold", "train_or_test"]:
+    for k, v in frame[2][0][1]:
+        if k[0] != "const":
+            _fail("save_predictions: DataFrame column name", k)
+        cols[k[1]] = v
+    if a != ("call", ("attr", ("self",), "_append_key"), (own[0], own[1]), ()):
+        _fail("HDDResults.save_predictions must end with self._append_key(strategy_name, dataset_name)", a)
+    f["cols"] = {c: (v[1] if v[0] == "param" else None) for c, v in cols.items()}
+    # load_predictions: for (s, d) in registry: read the file, yield the record
+    fn = ctx.method("load_predictions")
+    if _params(fn, True)[0] != ["cv_fold", "train_or_test"]:
         _fail("load_predictions signature", fn)
-    b = _body(fn)
-    if not (len(b) == 1 and isinstance(b[0], ast.For) and not b[0].orelse and _u(b[0].iter) == "self._iter()"
-            and _u(b[0].target) in ("(strategy_name, dataset_name)", "strategy_name, dataset_name")):
-        _fail("load_predictions: loop over the registry expected", fn)
-    fields, frame, rt = {}, None, False
-    yielded = None
-    for s in b[0].body:
-        a = _assign1(s)
-        if a and isinstance(a[1], ast.BinOp):
-            if not _own(_key_expr(a[1], "csv", "load_predictions"), {}):
-                _fail("load_predictions does not read the record of (strategy, dataset, fold, part)", s)
-            keyvar = a[0]
-        elif a and _is_call(a[1], "pd.read_csv"):
-            if not (a[1].args and _u(a[1].args[0]) == keyvar):
-                _fail("load_predictions: read_csv of something else than the key", s)
-            kws = {kw.arg: kw.value for kw in a[1].keywords}
-            if set(kws) - {"header", "float_precision"} or _u(kws.get("header", ast.Constant(0))) != "0":
-                _fail("load_predictions: read_csv keywords", s)
-            rt = "float_precision" in kws and _u(kws["float_precision"]) == "'round_trip'"
-            frame = a[0]
-        elif a and frame and _u(a[1]).startswith("%s.loc[" % frame):
-            sl = a[1].value if isinstance(a[1], ast.Attribute) else a[1]
-            idx = sl.slice
-            if not (isinstance(idx, ast.Tuple) and len(idx.elts) == 2 and isinstance(idx.elts[1], ast.Constant)):
-                _fail("load_predictions: column selection", s)
-            whole = _u(idx.elts[0]) == "slice(None, None, None)" or _u(sl).startswith("%s.loc[:," % frame)
-            fields[a[0]] = (idx.elts[1].value, whole and isinstance(a[1], ast.Attribute) and a[1].attr == "values")
-        elif isinstance(s, ast.Expr) and isinstance(s.value, ast.Yield) and _is_call(s.value.value, "_PredictionsWrapper"):
-            yielded = _bind(s.value.value, wsig, "_PredictionsWrapper")
-        else:
-            _fail("load_predictions: statement", s)
-    if yielded is None:
-        _fail("load_predictions yields nothing", fn)
-    if [_u(yielded[k]) for k in ("strategy_name", "dataset_name")] != ["strategy_name", "dataset_name"]:
-        _fail("load_predictions: record not labelled with the registry names", fn)
-    back = {}
+    node = ex.run_function(fn, {"self": ("self",), "cv_fold": _P("cv_fold"), "train_or_test": _P("train_or_test")})
+    effs, term = straight(node, "HDDResults.load_predictions")
+    loops = [e for e in effs if e[0] == "for"]
+    others = [e for e in effs if e[0] != "for" and show(e) != "self._iter()"]
+    if len(loops) != 1 or others or show(loops[0][1]) != "self._iter()" or not (
+            isinstance(loops[0][2], tuple) and len(loops[0][2]) == 2):
+        _fail("load_predictions: one loop `for strategy, dataset in self._iter()` expected")
+    lv = loops[0][4]
+    s_lv, d_lv = ("proj", lv, 0, 2), ("proj", lv, 1, 2)
+    beffs, bterm = straight(loops[0][3], "load_predictions loop body", neutral={"pd.read_csv", "_PredictionsWrapper"})
+    if len(beffs) != 1 or beffs[0][0] != "yield" or bterm[0] != "end":
+        _fail("load_predictions: the loop body must read one file and yield one record")
+    rec = beffs[0][1]
+    if fn_of(rec) != "_PredictionsWrapper":
+        _fail("load_predictions must yield a _PredictionsWrapper", rec)
+    y = kwget(rec, wsig, "_PredictionsWrapper")
+    if [y.get("strategy_name"), y.get("dataset_name")] != [s_lv, d_lv]:
+        _fail("load_predictions: record not labelled with the registry names")
+    back, frames = {}, set()
     for k in ("index", "y_true", "y_pred"):
-        src = fields.get(_u(yielded[k]))
-        if not src or not src[1]:
-            _fail("load_predictions: %s is not a whole column of the file" % k, fn)
-        back[k] = src[0]
+        v = y.get(k)
+        ok = v and v[0] == "attr" and v[2] == "values" and v[1][0] == "sub" and v[1][1][0] == "attr" \
+            and v[1][1][2] == "loc" and v[1][2][0] == "tuple" and len(v[1][2][1]) == 2 \
+            and v[1][2][1][0] == SLICE_ALL and v[1][2][1][1][0] == "const"
+        if not ok:
+            _fail("load_predictions: %s is not a whole column of the file" % k, v)
+        back[k] = v[1][2][1][1][1]
+        frames.add(v[1][1][1])
+    if len(frames) != 1:
+        _fail("load_predictions: the three fields come from different frames")
+    fr = frames.pop()
+    if fn_of(fr) != "pd.read_csv":
+        _fail("load_predictions: the record is not read with pd.read_csv", fr)
+    rb = kwget(fr, ["filepath_or_buffer", "sep", "delimiter", "header", "float_precision"], "read_csv")
+    if set(rb) - {"filepath_or_buffer", "header", "float_precision"} or rb.get("header", C(0)) != C(0):
+        _fail("load_predictions: read_csv keywords", fr)
+    _key(rb.get("filepath_or_buffer"), "csv", [s_lv, d_lv, _P("cv_fold"), _P("train_or_test")], "load_predictions")
     f["back"] = back
-    f["round_trip"] = rt
+    f["round_trip"] = rb.get("float_precision") == C("round_trip")
     # fitted strategies
-    fn = _find(res, cls + ".save_fitted_strategy")
-    if _params(fn) != ["self", "strategy", "dataset_name", "cv_fold"]:
-        _fail("save_fitted_strategy signature", fn)
-    b = _body(fn)
-    a = _assign1(b[0])
-    if not (len(b) == 3 and a and _own(_key_expr(a[1], "pickle", "save_fitted_strategy"),
-                                       {"strategy_name": "strategy.name", "train_or_test": "'train'"})
-            and _expr_call(b[1], "strategy.save") and [_u(x) for x in b[1].value.args] == [a[0]]):
-        _fail("save_fitted_strategy: must pickle the strategy under <strategy>_train_<fold>.pickle", fn)
-    _append_then(b, "strategy.name", "dataset_name", "HDDResults.save_fitted_strategy")
-    _uses_all_fields(_find(res, cls + "._generate_key"), "HDDResults._generate_key")
+    node = _value_fn(ex, ctx, "save_fitted_strategy", ["strategy", "dataset_name", "cv_fold"], "save_fitted_strategy")
+    effs, term = straight(node, "HDDResults.save_fitted_strategy")
+    sn = ("attr", _P("strategy"), "name")
+    if len(effs) != 2 or term[0] != "ret" or not (
+            effs[0][0] == "call" and effs[0][1] == ("attr", _P("strategy"), "save") and len(effs[0][2]) == 1 and not effs[0][3]):
+        _fail("save_fitted_strategy: strategy.save(<file>), then _append_key expected")
+    _key(effs[0][2][0], "pickle", [sn, _P("dataset_name"), _P("cv_fold"), C("train")], "save_fitted_strategy")
+    if effs[1] != ("call", ("attr", ("self",), "_append_key"), (sn, _P("dataset_name")), ()):
+        _fail("HDDResults.save_fitted_strategy must end with self._append_key(strategy.name, dataset_name)", effs[1])
+    _uses_all_fields(ctx, "HDDResults._generate_key")
     return f
 
 
 def _ram_facts(res, wsig):
+    ctx = Ctx(res, "RAMResults", primitives=RES_PRIMS, hook=_results_hook)
+    ex = Exec(ctx)
     f = {}
-    cls = "RAMResults"
-    for meth, sig in (("check_predictions_exist", 4), ("check_fitted_strategy_exists", 3)):
-        fn = _find(res, cls + "." + meth)
-        b = _body(fn)
-        if len(_params(fn)) != 1 + sig or [_u(s) for s in b] != ["return False"]:
+    own = [_P(k) for k in KEYSIG]
+    for meth, n in (("check_predictions_exist", 4), ("check_fitted_strategy_exists", 3)):
+        fn = ctx.method(meth)
+        if len(_params(fn, True)[0]) != n:
+            _fail("RAMResults.%s signature" % meth, fn)
+        node = ex.run_function(fn, dict({"self": ("self",)}, **{p: _P(p) for p in _params(fn, True)[0]}))
+        effs, term = straight(node, "RAMResults." + meth)
+        if effs or term != ("ret", FALSE):
             _fail("RAMResults.%s is not `return False`" % meth, fn)
     f["has_pred"] = f["has_fit"] = "false"
-    fn = _find(res, cls + ".save_fitted_strategy")
-    b = _body(fn)
-    if not (len(b) == 1 and isinstance(b[0], ast.Raise) and _u(b[0].exc).startswith("NotImplementedError")):
+    fn = ctx.method("save_fitted_strategy")
+    node = ex.run_function(fn, dict({"self": ("self",)}, **{p: _P(p) for p in _params(fn, True)[0]}))
+    effs, term = straight(node, "RAMResults.save_fitted_strategy")
+    if effs or term[0] != "raise" or "NotImplementedError" not in show(term[1]):
         _fail("RAMResults.save_fitted_strategy is not `raise NotImplementedError()`", fn)
-    fn = _find(res, cls + ".save")
-    if [_u(s) for s in _body(fn)] != ["pass"]:
-        _fail("RAMResults.save is not `pass`", fn)
+    node = ex.run_function(ctx.method("save"), {"self": ("self",)})
+    if straight(node, "RAMResults.save") != ([], ("ret", NONE)):
+        _fail("RAMResults.save must do nothing", ctx.method("save"))
     # save_predictions
-    fn = _find(res, cls + ".save_predictions")
-    b = _body(fn)
-    a = _assign1(b[0])
-    if not a or not _own(_key_expr(a[1], None, "RAMResults.save_predictions"), {}):
-        _fail("RAMResults.save_predictions does not store under the key of its own four arguments", b[0])
-    keyvar = a[0]
-    stored = None
-    for s in b[1:-1]:
-        x = _assign1(s)
-        if x and _is_call(x[1], "np.asarray") and [_u(y) for y in x[1].args] == [x[0]] and not x[1].keywords:
-            continue                                   # v = np.asarray(v)
-        if isinstance(s, ast.Assign) and len(s.targets) == 1 and _u(s.targets[0]) == "self.results[%s]" % keyvar \
-                and _is_call(s.value, "_PredictionsWrapper") and stored is None:
-            stored = _bind(s.value, wsig, "_PredictionsWrapper")
-            continue
-        _fail("RAMResults.save_predictions: statement", s)
-    if stored is None:
-        _fail("RAMResults.save_predictions stores nothing", fn)
-    for k in ("strategy_name", "dataset_name"):
-        if _u(stored[k]) != k:
-            _fail("RAMResults.save_predictions: record not labelled with its own %s" % k, fn)
-    f["cols"] = {k: _u(stored[k]) for k in ("index", "y_true", "y_pred")}
-    f["back"] = {"index": "index", "y_true": "y_true", "y_pred": "y_pred"}      # the same object
-    _append_then(b, "strategy_name", "dataset_name", "RAMResults.save_predictions")
+    fn = ctx.method("save_predictions")
+    sig, _ = _params(fn, True)
+    node = ex.run_function(fn, dict({"self": ("self",)}, **{n: _P(n) for n in sig}))
+    effs, term = straight(node, "RAMResults.save_predictions", neutral={"_PredictionsWrapper"})
+    if len(effs) != 2 or term[0] != "ret":
+        _fail("RAMResults.save_predictions: store the record, then _append_key expected, found %s" % [show(e) for e in effs])
+    st, a = effs
+    if not (st[0] == "setitem" and st[1] == ("attr", ("self",), "results") and fn_of(st[3]) == "_PredictionsWrapper"):
+        _fail("RAMResults.save_predictions: self.results[key] = _PredictionsWrapper(...) expected", st)
+    _key(st[2], None, own, "RAMResults.save_predictions")
+    y = kwget(st[3], wsig, "_PredictionsWrapper")
+    if [y.get("strategy_name"), y.get("dataset_name")] != own[:2]:
+        _fail("RAMResults.save_predictions: record not labelled with its own names")
+    f["cols"] = {k: (y[k][1] if y.get(k, ("?",))[0] == "param" else None) for k in ("index", "y_true", "y_pred")}
+    f["back"] = {"index": "index", "y_true": "y_true", "y_pred": "y_pred"}        # the same object
+    if a != ("call", ("attr", ("self",), "_append_key"), (own[0], own[1]), ()):
+        _fail("RAMResults.save_predictions must end with self._append_key(strategy_name, dataset_name)", a)
     # load_predictions
-    fn = _find(res, cls + ".load_predictions")
-    b = _body(fn)
-    ok = (len(b) == 1 and isinstance(b[0], ast.For) and _u(b[0].iter) == "self._iter()"
-          and _u(b[0].target) in ("(strategy_name, dataset_name)", "strategy_name, dataset_name")
-          and len(b[0].body) == 2)
-    if ok:
-        a = _assign1(b[0].body[0])
-        ok = bool(a) and _own(_key_expr(a[1], None, "RAMResults.load_predictions"), {}) \
-            and _u(b[0].body[1]) == "yield self.results[%s]" % a[0]
-    if not ok:
-        _fail("RAMResults.load_predictions: must yield self.results[key] over the registry", fn)
-    _uses_all_fields(_find(res, cls + "._generate_key"), "RAMResults._generate_key")
+    fn = ctx.method("load_predictions")
+    node = ex.run_function(fn, {"self": ("self",), "cv_fold": _P("cv_fold"), "train_or_test": _P("train_or_test")})
+    effs, term = straight(node, "RAMResults.load_predictions")
+    loops = [e for e in effs if e[0] == "for"]
+    others = [e for e in effs if e[0] != "for" and show(e) != "self._iter()"]
+    if len(loops) != 1 or others or show(loops[0][1]) != "self._iter()":
+        _fail("RAMResults.load_predictions: one loop over self._iter() expected")
+    lv = loops[0][4]
+    beffs, bterm = straight(loops[0][3], "RAMResults.load_predictions loop body")
+    want = ("sub", ("attr", ("self",), "results"),
+            ("genkey", (("proj", lv, 0, 2), ("proj", lv, 1, 2), _P("cv_fold"), _P("train_or_test"))))
+    if beffs != [("yield", want)] or bterm[0] != "end":
+        _fail("RAMResults.load_predictions: must yield self.results[key] over the registry")
+    _uses_all_fields(ctx, "RAMResults._generate_key")
     return f
+
+
+def _append_shape(node, what):
+    """tree of `if x not in self.L: self.L.append(x)` statements in any control-flow form ->
+    {list attribute: appended parameter}; every append must happen exactly when the name is absent"""
+    upd = {}
+    per_list = {}
+    for effs, conds, term in leaves(node):
+        if term[0] != "ret":
+            _fail("%s: unexpected control flow" % what)
+        pos = {(c[2], c[3]): (c[1] == "notin") == pol for c, pol in conds if c[0] == "cmp" and c[1] in ("in", "notin")}
+        if len(pos) != len(conds):
+            _fail("%s: conditions must be membership tests of the two name lists" % what)
+        did = {}
+        for e in effs:
+            if not (e[0] == "call" and e[1][0] == "attr" and e[1][2] == "append" and len(e[2]) == 1 and not e[3]
+                    and e[1][1][0] == "attr" and e[1][1][1] == ("self",) and e[2][0][0] == "param"):
+                _fail("%s: only self.<names>.append(<name>) may happen" % what, e)
+            lst, par = e[1][1][2], e[2][0][1]
+            if upd.setdefault(lst, par) != par or lst in did:
+                _fail("%s: %s receives different names / twice" % (what, lst))
+            did[lst] = True
+        for (x, l), absent in pos.items():
+            if not (l[0] == "attr" and l[1] == ("self",) and x[0] == "param"):
+                _fail("%s: membership test of something else than a name in self.<names>" % what)
+            per_list.setdefault(l[2], set()).add((x[1], absent, l[2] in did))
+    for lst, obs in per_list.items():
+        for par, absent, appended in obs:
+            if par != upd.get(lst) or absent != appended:
+                _fail("%s: self.%s must be appended to exactly when the name is not in it" % (what, lst))
+    for lst in upd:
+        if lst not in per_list:
+            _fail("%s: self.%s is appended to unconditionally" % (what, lst))
+    return upd
 
 
 def _base_facts(base):
     f = {}
-    # _append_key: `if x not in self.L: self.L.append(x)` twice
-    fn = _find(base, "BaseResults._append_key")
-    if _params(fn) != ["self", "strategy_name", "dataset_name"]:
-        _fail("_append_key signature", fn)
-    upd = {}
-    for s in _body(fn):
-        ok = isinstance(s, ast.If) and not s.orelse and len(s.body) == 1 \
-            and isinstance(s.test, ast.Compare) and len(s.test.ops) == 1 and isinstance(s.test.ops[0], ast.NotIn) \
-            and isinstance(s.test.left, ast.Name)
-        if ok:
-            lst = _u(s.test.comparators[0])
-            ok = lst in ("self.strategy_names", "self.dataset_names") and lst not in upd \
-                and _u(s.body[0]) == "%s.append(%s)" % (lst, s.test.left.id)
-        if not ok:
-            _fail("_append_key: `if name not in self.<list>: self.<list>.append(name)` expected", s)
-        upd[lst] = s.test.left.id
-    f["append"] = upd
+    ctx = Ctx(base, "BaseResults", primitives={"_iter", "_append_key", "save", "_generate_key"})
+    ex = Exec(ctx)
+    node = _value_fn(ex, ctx, "_append_key", ["strategy_name", "dataset_name"], "_append_key")
+    upd = _append_shape(node, "_append_key")
+    if sorted(upd) != ["dataset_names", "strategy_names"]:
+        _fail("_append_key must maintain strategy_names and dataset_names, found %s" % sorted(upd))
+    f["append"] = {"self." + k: v for k, v in upd.items()}
     # registry iteration
-    fn = _find(base, "BaseResults._iter")
-    b = _body(fn)
-    ok = len(b) == 1 and isinstance(b[0], ast.For) and len(b[0].body) == 1 and isinstance(b[0].body[0], ast.For) \
-        and len(b[0].body[0].body) == 1
-    if ok:
-        o, i = b[0], b[0].body[0]
-        ok = isinstance(o.target, ast.Name) and isinstance(i.target, ast.Name) \
-            and {_u(o.iter), _u(i.iter)} == {"self.strategy_names", "self.dataset_names"}
-        if ok:
-            role = {_u(o.iter): o.target.id, _u(i.iter): i.target.id}
-            ok = _u(i.body[0]) == "yield (%s, %s)" % (role["self.strategy_names"], role["self.dataset_names"])
-            f["reg_outer"] = "s" if _u(o.iter) == "self.strategy_names" else "d"
-    if not ok:
-        _fail("BaseResults._iter: nested loops over the two name lists yielding (strategy, dataset)", fn)
+    node = ex.run_function(ctx.method("_iter"), {"self": ("self",)})
+    effs, term = straight(node, "BaseResults._iter")
+    order = []
+    cur = effs
+    lvs = {}
+    while True:
+        loops = [e for e in cur if e[0] == "for"]
+        if len(loops) == 1 and len(cur) == 1 and show(loops[0][1]) in ("self.strategy_names", "self.dataset_names") \
+                and isinstance(loops[0][2], str):
+            order.append(show(loops[0][1]))
+            lvs[show(loops[0][1])] = loops[0][4]
+            cur, t2 = straight(loops[0][3], "BaseResults._iter")
+            continue
+        break
+    if sorted(order) != ["self.dataset_names", "self.strategy_names"] or \
+            cur != [("yield", ("tuple", (lvs["self.strategy_names"], lvs["self.dataset_names"])))]:
+        _fail("BaseResults._iter: nested loops over the two name lists yielding (strategy, dataset)")
+    f["reg_outer"] = "s" if order[0] == "self.strategy_names" else "d"
     # HDDBaseResults.save
-    fn = _find(base, "HDDBaseResults.save")
-    b = _body(fn)
-    a = _assign1(b[0]) if b else None
-    if not (len(b) == 2 and a and _u(a[1]) == "os.path.join(self.path, 'results.pickle')"
-            and isinstance(b[1], ast.If) and _u(b[1].test) == "not os.path.isfile(%s)" % a[0]
-            and [_u(s) for s in b[1].body] == ["dump(self, %s)" % a[0]]):
-        _fail("HDDBaseResults.save: first-master-file branch", fn)
-    el = b[1].orelse
-    ld = _assign1(el[0]) if el else None
-    if not (len(el) == 4 and ld and _u(ld[1]) == "load(%s)" % a[0] and _u(el[3]) == "dump(self, %s)" % a[0]):
-        _fail("HDDBaseResults.save: merge branch", fn)
+    ctx2 = Ctx(base, "HDDBaseResults", primitives={"_iter", "_append_key", "save", "_generate_key", "_validate_path"})
+    ex2 = Exec(ctx2)
+    node = ex2.run_function(ctx2.method("save"), {"self": ("self",)})
+    while node[0] == "eff" and is_neutral(node[1]):
+        node = node[2]
+    mfile = ("call", ("attr", ("attr", ("global", "os"), "path"), "join"), (("attr", ("self",), "path"), C("results.pickle")), ())
+    isf = ("call", ("attr", ("attr", ("global", "os"), "path"), "isfile"), (mfile,), ())
+    while node[0] == "eff" and node[1] == isf:
+        node = node[2]
+    if node[0] != "if" or node[1] not in (isf, mfile and mk_not(isf)):
+        _fail("HDDBaseResults.save: must branch on os.path.isfile(<path>/results.pickle)")
+    exists, fresh = (node[2], node[3]) if node[1] == isf else (node[3], node[2])
+    dump = ("call", ("global", "dump"), (("self",), mfile), ())
+    if straight(fresh, "save (no master file)") != ([dump], ("ret", NONE)):
+        _fail("HDDBaseResults.save: without a master file it must only dump(self, file)")
+    effs, term = straight(exists, "save (merge)")
+    ld = ("call", ("global", "load"), (mfile,), ())
+    if term != ("ret", NONE) or not effs or effs[0] != ld or effs[-1] != dump:
+        _fail("HDDBaseResults.save: with a master file: load it, merge the names, dump(self, file)")
     merge = {}
-    for s in el[1:3]:
-        if not (isinstance(s, ast.Assign) and len(s.targets) == 1):
-            _fail("HDDBaseResults.save: merge assignment", s)
-        tgt = _u(s.targets[0])
-        val = s.value
-        if not (tgt in ("self.strategy_names", "self.dataset_names") and _is_call(val, "list") and len(val.args) == 1
-                and _is_call(val.args[0], "set") and len(val.args[0].args) == 1
-                and isinstance(val.args[0].args[0], ast.BinOp) and isinstance(val.args[0].args[0].op, ast.Add)):
-            _fail("HDDBaseResults.save: list(set(a + b)) expected", s)
-        l, r = _u(val.args[0].args[0].left), _u(val.args[0].args[0].right)
-        attr = tgt[len("self."):]
-        if {l, r} != {tgt, "%s.%s" % (ld[0], attr)}:
-            _fail("HDDBaseResults.save: %s is not merged with the master file's %s" % (tgt, attr), s)
-        merge[attr] = "own_first" if l == tgt else "master_first"
+    for e in effs[1:-1]:
+        if e[0] != "setattr" or e[1] != ("self",) or e[2] not in ("strategy_names", "dataset_names") or e[2] in merge:
+            _fail("HDDBaseResults.save: unexpected operation while merging", e)
+        own, theirs = ("attr", ("self",), e[2]), ("attr", ld, e[2])
+        v = e[3]
+        if not (v[0] == "call" and v[1] == ("global", "list") and len(v[2]) == 1 and not v[3]
+                and v[2][0][0] == "call" and v[2][0][1] == ("global", "set") and len(v[2][0][2]) == 1
+                and v[2][0][2][0][0] == "add" and {v[2][0][2][0][1], v[2][0][2][0][2]} == {own, theirs}):
+            _fail("HDDBaseResults.save: self.%s must become the duplicate-free union list(set(own + master's))" % e[2], v)
+        merge[e[2]] = "own_first" if v[2][0][2][0][1] == own else "master_first"
     if sorted(merge) != ["dataset_names", "strategy_names"]:
-        _fail("HDDBaseResults.save: both name lists must be merged", fn)
+        _fail("HDDBaseResults.save: both name lists must be merged")
     f["merge"] = merge
     return f
 
@@ -736,7 +1237,6 @@ Open Scope Z_scope.
 
 
 def _cols_term(cols, args):
-    """content written for the arguments `args` = (index, y_true, y_pred) given the column map"""
     for c in ("index", "y_true", "y_pred"):
         if cols.get(c) not in args:
             _fail("column %s does not receive one of the arguments %s" % (c, args))
@@ -769,14 +1269,10 @@ def translate(repo):
              "  if hdd then %s else %s.\n"
              "Definition gen_has_fit (hdd : bool) (k : key) (st : store) : bool :=\n"
              "  if hdd then %s else %s.\n\n" % (hdd["has_pred"], ram["has_pred"], hdd["has_fit"], ram["has_fit"]))
-    lets = "".join("  let %s := %s hdd (tkey t %s) st in\n" % (
-        n, "gen_has_fit" if item == "IFit" else "gen_has_pred", item) for n, item in fp["checks"])
-    work = " ++\n       ".join("[%s]" % op if g is None else "(if %s then [%s] else [])" % (g, op)
-                               for g, op in fp["ops"])
-    o.append("(* the body of the loop of fit_predict, statement by statement in source order *)\n"
+    o.append("(* the body of the loop of fit_predict as executed: a decision tree over the flags and the\n"
+             "   existence checks; the leaves list the operations of that path in execution order *)\n"
              "Definition gen_plan_task (hdd : bool) (fl : flags) (st : store) (t : task) : list op :=\n"
-             "%s  if %s\n  then [OReg t]\n  else %s.\n\n" % (lets, fp["skip"], work))
-    # _iter
+             "  %s.\n\n" % fp["plan"])
     inner = ("map (fun ff => {| ts := fst s; td := d_name d; tf := fst ff; tparam := snd s;\n"
              "                        trows := d_rows d; ttrain := fst (snd ff); ttest := snd (snd ff) |})\n"
              "          (enumerate_from %d (d_folds d))" % it["start"])
@@ -786,28 +1282,22 @@ def translate(repo):
         nest = "flat_map (fun s =>\n    flat_map (fun d =>\n      %s)\n      data)\n    strats" % inner
     o.append("(* Orchestrator._iter: the loop nest, outermost first: %s, folds; folds numbered from %d *)\n"
              "Definition gen_tasks_of (strats : list strategy) (data : list dataset) : list task :=\n  %s.\n"
-             "(* `strategy = clone(strategy)` inside the fold loop, before the yield *)\n"
+             "(* the strategy handed out is clone(strategy), cloned inside the fold loop *)\n"
              "Definition gen_clone_per_fold : bool := %s.\n\n" % (
                  ", ".join(it["nest"]), it["start"], nest, "true" if it["clone_per_fold"] else "false"))
-    # _append_key
     ap = base["append"]
     o.append("(* BaseResults._append_key *)\n"
              "Definition gen_append_key (strategy_name dataset_name : Z) (st : store) : store :=\n"
              "  {| sfiles := sfiles st; master := master st;\n"
-             "     snames := %s;\n     dnames := %s |}.\n\n" % (
-                 "(if mem %s (snames st) then snames st else snames st ++ [%s])" % (
-                     ap["self.strategy_names"], ap["self.strategy_names"]) if "self.strategy_names" in ap
-                 else "snames st",
-                 "(if mem %s (dnames st) then dnames st else dnames st ++ [%s])" % (
-                     ap["self.dataset_names"], ap["self.dataset_names"]) if "self.dataset_names" in ap
-                 else "dnames st"))
-    # save
+             "     snames := (if mem %s (snames st) then snames st else snames st ++ [%s]);\n"
+             "     dnames := (if mem %s (dnames st) then dnames st else dnames st ++ [%s]) |}.\n\n" % (
+                 ap["self.strategy_names"], ap["self.strategy_names"], ap["self.dataset_names"], ap["self.dataset_names"]))
     mg = base["merge"]
 
     def m(attr, own, other):
         return "merge_names (%s) %s" % (own, other) if mg[attr] == "own_first" else "merge_names %s (%s)" % (other, own)
     o.append("(* HDDBaseResults.save (no master file yet: dump; else merge both name lists, dump) and\n"
-             "   RAMResults.save (pass) *)\n"
+             "   RAMResults.save (nothing) *)\n"
              "Definition gen_save (hdd : bool) (st : store) : store :=\n"
              "  if hdd then\n    match master st with\n"
              "    | None => {| sfiles := sfiles st; master := Some (snames st, dnames st);\n"
@@ -815,7 +1305,6 @@ def translate(repo):
              "    | Some (ms, md) =>\n        let sn := %s in\n        let dn := %s in\n"
              "        {| sfiles := sfiles st; master := Some (sn, dn); snames := sn; dnames := dn |}\n"
              "    end\n  else st.\n\n" % (m("strategy_names", "snames st", "ms"), m("dataset_names", "dnames st", "md")))
-    # stored / loaded records
     o.append("(* save_predictions: which column (HDD) / record field (RAM) receives which argument *)\n"
              "Definition gen_stored (hdd : bool) (a_index a_y_true a_y_pred : list Z) : content :=\n"
              "  if hdd then %s else %s.\n"
